@@ -298,6 +298,43 @@ func (c *Ctx) mapRangeFuncs(pkgs ...string) map[string]int {
 	return out
 }
 
+// lenCapped: on every way the slice value s can be produced it has at most max
+// elements: it is x[:max], or it arrives over an edge on which len(x) <= max.
+func lenCapped(s ssa.Value, max string) bool {
+	phi, ok := s.(*ssa.Phi)
+	if !ok {
+		sl, isS := s.(*ssa.Slice)
+		if !isS || sl.High == nil {
+			return false
+		}
+		k, isK := sl.High.(*ssa.Const)
+		return isK && k.Value != nil && k.Value.ExactString() == max
+	}
+	for i, e := range phi.Edges {
+		if lenCapped(e, max) {
+			continue
+		}
+		p := phi.Block().Preds[i]
+		if len(p.Instrs) == 0 {
+			return false
+		}
+		have := factsAt(p.Instrs[len(p.Instrs)-1])
+		if iff, isIf := p.Instrs[len(p.Instrs)-1].(*ssa.If); isIf {
+			for j, sc := range p.Succs {
+				if sc == phi.Block() {
+					for _, ft := range edgeFacts(iff, j) {
+						have[ft] = true
+					}
+				}
+			}
+		}
+		if !have["call:builtin:len <= "+max] {
+			return false
+		}
+	}
+	return true
+}
+
 func ruleC15(c *Ctx) {
 	c.Explain("C15 (structural part): map-iteration order independence + comparator totality + cap/fallback facts. Decided: every `range` over a map in protocol/state, protocol/validation, protocol/casper and proposal is in the reviewed table with its reason (commutative body, sorted afterwards, unique-key search, order not a consensus rule); AllValidators builds its slice in map order but sorts it with a comparator that falls through to the unique public key and compares element i with element j on every branch (strict, total); only keys with at least the minimum vote count qualify; EffectiveValidators assigns Order from the sorted index, stops at MaxNumOfValidators and falls back to the federation when nobody qualifies; GetValidator returns the validator whose Order equals the computed slot. Not decided: the slot arithmetic for all timestamps (value-level).")
 	table := map[string]string{
@@ -415,8 +452,34 @@ func ruleC15(c *Ctx) {
 		ok := false
 		for _, w := range c.writersOf("protocol/state.Validator", "Order", nil) {
 			if w.Fn == ev {
+				maxV := c.constVal("consensus", "MaxNumOfValidators")
 				_, isPhi := w.Store.Val.(*ssa.Phi)
-				ok = isPhi && (factsAtHas(w.Store, " < "+c.constVal("consensus", "MaxNumOfValidators")))
+				ok = isPhi && (factsAtHas(w.Store, " < "+maxV))
+				if !ok {
+					// the other way to cap: range over a slice that was cut to [:Max] whenever it was longer
+					// (`if len(s) > Max { s = s[:Max] }; for i, v := range s { v.Order = i }`)
+					isIdx := false
+					if bo, isB := w.Store.Val.(*ssa.BinOp); isB && bo.Op.String() == "+" {
+						_, px := bo.X.(*ssa.Phi)
+						isIdx = px
+					}
+					if _, isP := w.Store.Val.(*ssa.Phi); isP {
+						isIdx = true
+					}
+					capped := false
+					for _, b := range ev.Blocks {
+						for _, in := range b.Instrs {
+							cl, isC := in.(*ssa.Call)
+							if !isC || calleeKey(cl) != "builtin:len" || !instrDominates(cl, w.Store) {
+								continue
+							}
+							if lenCapped(cl.Call.Args[0], maxV) && factsAtHas(w.Store, " < call:builtin:len") {
+								capped = true
+							}
+						}
+					}
+					ok = isIdx && capped
+				}
 			}
 		}
 		c.Require("facts", fname(ev)+": Order = sorted index, capped at MaxNumOfValidators", ok, "store to Validator.Order")
@@ -429,8 +492,12 @@ func ruleC15(c *Ctx) {
 		n := 0
 		for _, b := range gv.Blocks {
 			if ret, isR := b.Instrs[len(b.Instrs)-1].(*ssa.Return); isR {
-				if !isNilConst(ret.Results[0]) {
-					if factsAtHas(ret, "field:protocol/state.Validator.Order == ") {
+				// every non-nil origin of the returned value (φ-inputs taken with their predecessor's facts)
+				for _, og := range valueOrigins(canon(ret.Results[0]), ret) {
+					if isNilConst(og.val) {
+						continue
+					}
+					if factsAtHas(og.at, "field:protocol/state.Validator.Order == ") {
 						n++
 					} else {
 						n = -100
